@@ -47,7 +47,9 @@ static int is_blank(char c) { return c == ' ' || c == '\t'; }
 static int unambiguous(const econf_file *kf, const w_ent *e, char d, char c)
 {
   const char *g = e->g, *k = e->k;
-  if (g) { if (!*g || !printable(g) || strchr(g, '[') || strchr(g, ']') || strchr(g, c) || is_blank(g[0]) || is_blank(g[strlen(g) - 1]) || strchr(g, '\t')) return 0; }
+  if (g) { const char *ob = strchr(g, '['), *cb = strchr(g, ']');
+    int array_style = ob && cb && ob > g && cb > ob + 1 && !cb[1] && !strchr(ob + 1, '[');     /* name[index]: one bracket pair, at the end */
+    if (!*g || !printable(g) || ((ob || cb) && !array_style) || strchr(g, c) || is_blank(g[0]) || is_blank(g[strlen(g) - 1]) || strchr(g, '\t')) return 0; }
   if (!*k || !printable(k) || strchr(k, d) || strchr(k, c) || strchr(k, '"') || k[0] == '[' || strchr(k, ' ') || strchr(k, '\t')) return 0;
   /* "read quoted" is a fact about the SOURCE the entry came from (generator / start file), not the library's own flag:
    * a library that forgets the flag must not thereby move the entry outside the claim */
@@ -263,7 +265,7 @@ int main(int argc, char **argv)
   mc_args(argc, argv);
   mode = (int)mc_opt.param[0];
   if (mode == 0) {
-    e2_sec[0] = NULL; e2_sec[1] = "A"; e2_sec[2] = "B"; e2_nsec = 3;
+    e2_sec[0] = NULL; e2_sec[1] = "A"; e2_sec[2] = "s[0]"; e2_nsec = 3;   /* an array-style name: ends with a bracket, must still be written as a header of its own */
     e2_nkey = 2;
     e2_val[0] = "1"; e2_val[1] = ""; e2_val[2] = "v w"; e2_val[3] = "a\n b\n\tc"; e2_val[4] = "a#b"; e2_nval = 5;
     int depth = mc_opt.param[1] ? (int)mc_opt.param[1] : 3;
